@@ -109,7 +109,11 @@ func regCmd(args []string) error {
 			"omitdigest": strings.Contains(sc.Stack, "omitdigest"), "wrap": wrap, "minchunk": minChunkOf(sc.Stack, env)})
 		ctx := context.Background()
 		for i, op := range sc.Ops {
-			if i < *pre && len(env.mems) == 1 {
+			npre := *pre
+			if sc.Pre > 0 {
+				npre = sc.Pre
+			}
+			if i < npre && len(env.mems) == 1 {
 				// pre-population: applied to the in-memory registry directly, underneath the stack
 				w.top, w.direct = env.mems[0], true
 			} else {
